@@ -57,7 +57,7 @@ func genCase(t *rapid.T) Case {
 	nf := rapid.IntRange(1, 4).Draw(t, "nfracs")
 	seen := map[model.ID]bool{}
 	n := 0
-	huge := rapid.IntRange(0, 79).Draw(t, "huge") == 0 // documents > 4 MiB on average
+	huge := rapid.IntRange(0, 79).Draw(t, "huge") == 79 // documents > 4 MiB on average
 	var all []model.Doc
 	for f := 0; f < nf; f++ {
 		base := gen.BaseMID + uint64(rapid.IntRange(0, 3).Draw(t, "fbase"))*50
@@ -115,7 +115,7 @@ func genList(t *rapid.T, fracs []Frac, all []model.Doc) List {
 		target = rapid.IntRange(21, 300).Draw(t, "n")
 	default:
 		target = rapid.IntRange(1001, 3000).Draw(t, "n") // crosses the first streaming chunk (1000 ids)
-		if evid.Thorough() && rapid.IntRange(0, 19).Draw(t, "verylong") == 0 {
+		if evid.Thorough() && rapid.IntRange(0, 19).Draw(t, "verylong") == 19 {
 			target = rapid.IntRange(20_000, 100_000).Draw(t, "n100k")
 		}
 	}
